@@ -285,8 +285,8 @@ def monitor(events, meta, passes):
             if pin in pm and pm[pin] != f[1]:
                 problems.append(("pin-reconfigured", f"pin {pin} configured {pm[pin]} then {f[1]}"))
             pm[pin] = f[1]
-            if cur >= 0:
-                problems.append(("config-in-loop", f"pinMode({pin}) executed inside loop() pass {cur}"))
+            # (a pinMode repeated inside loop() with the same mode is not excluded by the statement; a different mode is
+            # reported above, a missing one by use-before-pinmode)
         elif kind == "SERVO_ATTACH":
             attached.add(int(f[0]))
             if cur >= 0:
@@ -356,7 +356,16 @@ def monitor(events, meta, passes):
                                                 f"expected the safe stop (IN1=0, IN2=0, EN=0) inside setup()"))
     # ---- Serial.begin calls follow the declarations in source order
     got_bauds = [int(f[0]) for t, kind, f in events if kind == "SBEGIN"]
-    if got_bauds != meta.get("bauds", got_bauds):
+
+    def squeeze(seq):
+        # re-opening the port at the rate it already has changes nothing: consecutive repeats are not counted
+        out = []
+        for x in seq:
+            if not out or out[-1] != x:
+                out.append(x)
+        return out
+
+    if squeeze(got_bauds) != squeeze(meta.get("bauds", got_bauds)):
         problems.append(("serial-begin-sequence", f"Serial.begin sequence {got_bauds}, declarations in source order {meta.get('bauds')}"))
     # ---- LCD animation tick: an animation started in setup() is advanced in the first pass (its first tick is never gated)
     if meta.get("animated_in_setup") and passes >= 1:
